@@ -204,8 +204,82 @@ fn parse_any(req: &Value) -> Value {
     }
 }
 
+/// DefaultHandler::matching_frames for each instruction text against the program text.
+fn matching_frames(req: &Value) -> Value {
+    use quil_rs::instruction::{DefaultHandler, InstructionHandler};
+    let program = match Program::from_str(req["program"].as_str().unwrap()) {
+        Ok(p) => p,
+        Err(e) => return json!({"input_error": format!("{e:?}")}),
+    };
+    let mut out = vec![];
+    for t in req["instructions"].as_array().unwrap() {
+        let ins = match parse_instructions(t.as_str().unwrap()) {
+            Ok(v) if v.len() == 1 => v.into_iter().next().unwrap(),
+            Ok(v) => return json!({"input_error": format!("{} instructions", v.len())}),
+            Err(e) => return json!({"input_error": e}),
+        };
+        match DefaultHandler.matching_frames(&program, &ins) {
+            None => out.push(json!({"none": true, "instruction": dbg(&ins)})),
+            Some(mf) => out.push(json!({
+                "instruction": dbg(&ins),
+                "used": mf.used.iter().map(|f| dbg(f)).collect::<Vec<_>>(),
+                "blocked": mf.blocked.iter().map(|f| dbg(f)).collect::<Vec<_>>(),
+            })),
+        }
+    }
+    json!({"frames": program.frames.get_keys().iter().map(|f| dbg(f)).collect::<Vec<_>>(),
+           "used_qubits": program.get_used_qubits().iter().map(dbg).collect::<Vec<_>>(), "results": out})
+}
+
+/// DefaultHandler::memory_accesses for each instruction text, with the extern signatures of the program text.
+fn memory_accesses(req: &Value) -> Value {
+    use quil_rs::instruction::{DefaultHandler, ExternSignatureMap, InstructionHandler};
+    let program = match Program::from_str(req["program"].as_str().unwrap()) {
+        Ok(p) => p,
+        Err(e) => return json!({"input_error": format!("{e:?}")}),
+    };
+    let map = match ExternSignatureMap::try_from(program.extern_pragma_map.clone()) {
+        Ok(m) => m,
+        Err(e) => return json!({"input_error": format!("{e:?}")}),
+    };
+    let mut out = vec![];
+    for t in req["instructions"].as_array().unwrap() {
+        let ins = match parse_instructions(t.as_str().unwrap()) {
+            Ok(v) if v.len() == 1 => v.into_iter().next().unwrap(),
+            Ok(v) => return json!({"input_error": format!("{} instructions", v.len())}),
+            Err(e) => return json!({"input_error": e}),
+        };
+        match DefaultHandler.memory_accesses(&map, &ins) {
+            Ok(a) => out.push(json!({
+                "instruction": dbg(&ins),
+                "reads": a.reads.iter().cloned().collect::<Vec<String>>(),
+                "writes": a.writes.iter().cloned().collect::<Vec<String>>(),
+                "captures": a.captures.iter().cloned().collect::<Vec<String>>(),
+            })),
+            Err(e) => out.push(json!({"err": format!("{e:?}"), "instruction": dbg(&ins)})),
+        }
+    }
+    json!({"results": out})
+}
+
+/// Debug rendering of the ExternSignatureMap built from the program's PRAGMA EXTERNs.
+fn extern_signature_map(req: &Value) -> Value {
+    use quil_rs::instruction::ExternSignatureMap;
+    let program = match Program::from_str(req["program"].as_str().unwrap()) {
+        Ok(p) => p,
+        Err(e) => return json!({"input_error": format!("{e:?}")}),
+    };
+    match ExternSignatureMap::try_from(program.extern_pragma_map.clone()) {
+        Ok(m) => json!({"ok": format!("{m:?}")}),
+        Err(e) => json!({"err": format!("{e:?}")}),
+    }
+}
+
 pub fn run(op: &str, req: &Value) -> Value {
     match op {
+        "extern_signature_map" => extern_signature_map(req),
+        "matching_frames" => matching_frames(req),
+        "memory_accesses" => memory_accesses(req),
         "lex" => lex(req),
         "parse_any" => parse_any(req),
         "script" => script(req),
